@@ -4,7 +4,7 @@
      std_*  : the query uses only RFC 9535 constructs and is well-typed;
      ext_*  : as std, but the documented extensions are admitted where the documentation
               places them (keys selector, fake root, #, _, in/contains with list literals,
-              =~ with a regex literal, <>, comparison with undefined).
+              =~ with a regex literal, <>, comparison with undefined, the typeof function).
    Written from the RFC text; no reference to the implementation. *)
 From JP Require Import Base Json PyStr Syntax.
 
@@ -13,6 +13,8 @@ Definition tname_count : ustr := [99; 111; 117; 110; 116]%N.
 Definition tname_value : ustr := [118; 97; 108; 117; 101]%N.
 Definition tname_match : ustr := [109; 97; 116; 99; 104]%N.
 Definition tname_search : ustr := [115; 101; 97; 114; 99; 104]%N.
+(* the documented extension function typeof(NodesType) -> ValueType (docs/functions.md) *)
+Definition tname_typeof : ustr := [116; 121; 112; 101; 111; 102]%N.
 
 (* singular query: name and index selectors only, one per segment *)
 Fixpoint singular (p : segs) : bool :=
@@ -75,6 +77,8 @@ Section Typing.
           match args with ECons a ENil => negb (is_undefined a) && wt_comparable a | _ => false end
         else if ustr_eqb name tname_count || ustr_eqb name tname_value then
           match args with ECons a ENil => wt_nodes a | _ => false end
+        else if ext && ustr_eqb name tname_typeof then
+          match args with ECons a ENil => wt_nodes a | _ => false end
         else false
     | _ => false
     end
@@ -96,6 +100,8 @@ Section Typing.
         if ustr_eqb name tname_length then
           match args with ECons a ENil => negb (is_undefined a) && wt_comparable a | _ => false end
         else if ustr_eqb name tname_count || ustr_eqb name tname_value then
+          match args with ECons a ENil => wt_nodes a | _ => false end
+        else if ext && ustr_eqb name tname_typeof then
           match args with ECons a ENil => wt_nodes a | _ => false end
         else false
     | _ => false
